@@ -128,6 +128,31 @@ class Ctx:
         return res
 
 
+class SlowEvaluation(Exception):
+    pass
+
+
+class time_limit:  # pylint: disable=invalid-name
+    """with time_limit(5): ...   raises SlowEvaluation when the body takes longer (main thread only; used to keep generated
+    inputs on which SymPy itself takes minutes -- e.g. factoring a 60-digit number to take a root -- out of the streams)"""
+
+    def __init__(self, seconds: float):
+        self.seconds = seconds
+
+    def __enter__(self):
+        import signal  # pylint: disable=import-outside-toplevel
+        def _raise(_sig, _frm):
+            raise SlowEvaluation()
+        self._old = signal.signal(signal.SIGALRM, _raise)
+        signal.setitimer(signal.ITIMER_REAL, self.seconds)
+
+    def __exit__(self, *exc):
+        import signal  # pylint: disable=import-outside-toplevel
+        signal.setitimer(signal.ITIMER_REAL, 0)
+        signal.signal(signal.SIGALRM, self._old)
+        return False
+
+
 def json_default(o):
     try:
         import sympy  # pylint: disable=import-outside-toplevel
